@@ -121,7 +121,7 @@ def h_step(ctx, skeleton, route, b_index, a_slot, mod=None):
     u = r[1]
     names, methods = U.discover(P)
     writers = ["none"] + cross_writers(P)
-    b = writers[b_index % len(writers)]
+    b = "all" if b_index < 0 else writers[b_index % len(writers)]
     before = slots(u)
     twin = P.url.from_parts_uncached(*before)
     if mod is None:
@@ -133,7 +133,15 @@ def h_step(ctx, skeleton, route, b_index, a_slot, mod=None):
         arg = ctx.str("a", 1, no_surrogates=True)
     # cold outcomes first (nothing ran before), then the warm-up, then the same calls on the warm object
     cold = [run_member(P, twin, m, methods, arg) for m in members]
-    rb = run_member(P, u, b, methods)
+    if b == "all":
+        # the warmest state: every member that fills a cache key other than its own, plus hash / ordering / pickling state
+        rb = ("ok", None)
+        for w in writers[1:] + ["lt"]:
+            x = run_member(P, u, w, methods)
+            if x[0] == "excluded":
+                rb = x
+    else:
+        rb = run_member(P, u, b, methods)
     ctx.observe("warm-up:" + b, outcome(rb))
     if rb[0] == "excluded":
         return
@@ -251,20 +259,23 @@ def h_lru(ctx, which):
     with_lru(ctx, body)
 
 
-def h_kernel_history(ctx, name, n):
+def h_kernel_history(ctx, name, n, skeleton=None):
     """q(s1); q(s2) on the live (shared) instance equals a fresh instance's q(s2)"""
     P = ctx.P
     kind, cfg = C05.CONFIGS[name]
     live = getattr(P.quoters, name)
     fresh = getattr(P.quoting, kind)(**cfg)
-    s1 = ctx.str("s1", n)
-    s2 = ctx.str("s2", n)
+    if skeleton is None:
+        s1 = ctx.str("s1", n)
+        s2 = ctx.str("s2", n)
+    else:
+        s1 = U.text(ctx, skeleton, prefix="p")
+        s2 = U.text(ctx, skeleton, prefix="r")
     cold = call(fresh, s2)
     r1 = call(live, s1)
     warm = call(live, s2)
     ctx.observe("calls", (outcome(r1), outcome(warm, value=True)))
     ctx.check("second-call-equals-fresh-instance", same(warm, cold))
-    ctx.check("arguments-unchanged", all_of([sym_eq(s1, ctx.inputs["s1"]), sym_eq(s2, ctx.inputs["s2"])]))
 
 
 def h_unpickle(ctx):
@@ -318,7 +329,7 @@ def families(tier):
                 continue
             if q and sn == "path" and m not in pmods:
                 continue
-            for b in (((mi + si) % nb, (mi + si + 4) % nb)[:2 if sn == "auth" else 1] if q else range(nb)):
+            for b in ((-1, (mi + si) % nb)[:2 if sn == "auth" else 1] if q else [-1] + list(range(nb))):
                 fams.append(Family("step/%s/modifier=%s/B=%d" % (sn, m, b), h_step, dict(skeleton=sk, route="ctor", b_index=b, a_slot=0, mod=m)))
     for w in ("make_netloc", "_encode_host", "split_netloc", "from_parts", "encode_url", "pre_encoded_url"):
         fams.append(Family("lru/%s" % w, h_lru, dict(which=w)))
@@ -328,5 +339,12 @@ def families(tier):
             if q and n == 2 and kind == "_Quoter":
                 continue
             fams.append(Family("kernel-history/%s/n=%d" % (name, n), h_kernel_history, dict(name=name, n=n), backends=("py", "c")))
+        if kind == "_Unquoter" or cfg.get("requote", True):
+            # an escape left pending by the first call must not leak into the second
+            fams.append(Family("kernel-history/%s/escape-escape" % name, h_kernel_history,
+                               dict(name=name, n=0, skeleton=["%", ("hex",), ("hex",)]), backends=("py", "c")))
+            if not q:
+                fams.append(Family("kernel-history/%s/escape2-escape2" % name, h_kernel_history,
+                                   dict(name=name, n=0, skeleton=[("ns",), "%", ("hex",), ("hex",)]), backends=("py", "c")))
     fams.append(Family("unpickle", h_unpickle, {}))
     return fams
